@@ -67,8 +67,8 @@ macro_rules! avc_h {
                 (None, s, p) => assert!(s.is_none() || p.is_none(), "config missing although SPS and PPS are present"),
                 _ => panic!("config returned although SPS or PPS is missing"),
             }
-            kani::cover!(r.is_some(), "SPS and PPS found");
-            kani::cover!(r.is_none() && sps.is_some(), "SPS without PPS");
+            crate::vcover!(r.is_some(), "SPS and PPS found");
+            crate::vcover!(r.is_none() && sps.is_some(), "SPS without PPS");
             core::mem::forget(r);
         });
     };
@@ -88,7 +88,7 @@ h!(c07_avc_first_sps_wins, 30, {
     let c = r.as_ref().expect("config present");
     assert!(c.sps.len() == 2 && c.sps[0] == 0x67 && c.sps[1] == b[0], "the FIRST SPS is taken, not a later one");
     assert!(c.pps.len() == 2 && c.pps[0] == 0x68 && c.pps[1] == b[2]);
-    kani::cover!(b[0] != b[1], "later SPS differs");
+    crate::vcover!(b[0] != b[1], "later SPS differs");
     core::mem::forget(r);
 });
 
@@ -108,7 +108,7 @@ macro_rules! hevc_h {
                 (None, v, s, p) => assert!(v.is_none() || s.is_none() || p.is_none(), "config missing although all three parameter sets are present"),
                 _ => panic!("config returned although a parameter set is missing"),
             }
-            kani::cover!(r.is_none() && vps.is_some(), "VPS without the rest");
+            crate::vcover!(r.is_none() && vps.is_some(), "VPS without the rest");
             core::mem::forget(r);
         });
     };
@@ -127,7 +127,7 @@ h!(c07_hevc_first_sets_win, 40, {
     let r = h265::extract_hevc_config(&d[..]);
     let c = r.as_ref().expect("config present");
     assert!(c.vps.len() == 2 && c.vps[1] == b[0] && c.sps.len() == 2 && c.sps[1] == b[1] && c.pps.len() == 2 && c.pps[1] == b[3], "first VPS/SPS/PPS are taken");
-    kani::cover!(b[1] != b[2], "later SPS differs");
+    crate::vcover!(b[1] != b[2], "later SPS differs");
     core::mem::forget(r);
 });
 
@@ -173,13 +173,13 @@ fn av1_body<const P: usize, const T: usize>() {
         _ => {}
     }
     if let RefResult::Parsed(s) = refr {
-        kani::cover!(s.reduced, "reduced_still_picture_header path");
-        kani::cover!(!s.reduced && !s.timing_info, "ordinary header without timing_info");
-        kani::cover!(s.color_description, "color_description present");
-        kani::cover!(s.seq_profile == 1, "profile 1 (4:4:4)");
-        kani::cover!(s.seq_profile == 2 && s.twelve_bit, "profile 2, 12 bit");
+        crate::vcover!(s.reduced, "reduced_still_picture_header path");
+        crate::vcover!(!s.reduced && !s.timing_info, "ordinary header without timing_info");
+        crate::vcover!(s.color_description, "color_description present");
+        crate::vcover!(s.seq_profile == 1, "profile 1 (4:4:4)");
+        crate::vcover!(s.seq_profile == 2 && s.twelve_bit, "profile 2, 12 bit");
     }
-    kani::cover!(refr == RefResult::Truncated, "truncated header");
+    crate::vcover!(refr == RefResult::Truncated, "truncated header");
     core::mem::forget(r);
 }
 macro_rules! av1_h {
@@ -308,9 +308,9 @@ macro_rules! vp9_h {
                 (None, None) => {}
                 _ => panic!("accept/reject differs from the documented VP9 keyframe form"),
             }
-            kani::cover!(r.is_some(), "accepted");
-            kani::cover!(matches!(want, Some(w) if w.profile >= 2), "profile >= 2");
-            kani::cover!(d[0] == 0x49 && d[1] == 0x83 && d[2] == 0x42 && r.is_none(), "frame marker present but rejected");
+            crate::vcover!(r.is_some(), "accepted");
+            crate::vcover!(matches!(want, Some(w) if w.profile >= 2), "profile >= 2");
+            crate::vcover!(d[0] == 0x49 && d[1] == 0x83 && d[2] == 0x42 && r.is_none(), "frame marker present but rejected");
             core::mem::forget(r);
         });
     };
@@ -346,7 +346,7 @@ h!(c07_asc, 15, {
         assert!(cc as u16 == ch, "channelConfiguration = channel count (1..7)");
     }
     assert!(a[1] & 7 == 0, "GASpecificConfig flags zero");
-    kani::cover!(rate == 7350, "lowest standard rate");
+    crate::vcover!(rate == 7350, "lowest standard rate");
 });
 
 // ---------------------------------------------------------------------------
@@ -375,6 +375,6 @@ h!(c07_writer_keeps_first_config, 30, {
         }
         _ => panic!("AVC configuration expected"),
     }
-    kani::cover!(b[3] != b[0], "later parameter sets differ");
+    crate::vcover!(b[3] != b[0], "later parameter sets differ");
     core::mem::forget(w);
 });
